@@ -802,6 +802,18 @@ def m_into_iter(c):
     if isinstance(v, Iter):
         c.ret(v, src_loc=loc)
         return
+    if isinstance(v, Struct) and v.path == "std::ops::RangeInclusive" and len(v.fields) >= 2 and all(isinstance(f, Int) for f in v.fields[:2]) \
+            and v.fields[1].hi < (1 << 62) and not (len(v.fields) > 2 and isinstance(v.fields[2], Int) and v.fields[2].is_const() and v.fields[2].lo == 1):
+        # a..=b walks the same values as a..b+1 (b + 1 cannot overflow here)
+        a, b = v.fields[0], v.fields[1]
+        e = Int.const(b.lo + 1, b.bits, b.signed) if b.is_const() else Int(b.lo + 1, b.hi + 1, b.bits, b.signed)
+        ex = []
+        if not a.is_const() and loc is not None:
+            ex.append((("start",), LinForm.var((loc[0], loc[1] + (0,)))))
+        if not b.is_const() and loc is not None:
+            ex.append((("end",), LinForm.var((loc[0], loc[1] + (1,))) + 1))
+        c.ret(Iter("range", start=a, end=e), extras=tuple(ex))
+        return
     if isinstance(v, Struct) and v.path == "std::ops::Range":
         ex = []
         for i, nm in ((0, "start"), (1, "end")):
@@ -1405,3 +1417,56 @@ def m_fold(c):
     else:
         acc = c.I.havoc_val(acc)
     c.ret(acc)
+
+
+@model("core::slice::split_first", "core::slice::split_last")
+def m_split_first(c):
+    """&[T] -> Option<(&T, &[T])>: None exactly for the empty slice; otherwise the first (last) element and a view of the rest whose length is
+    the slice's length - 1"""
+    arr, loc = _vec_arg(c)
+    if arr is None:
+        c.ret_top()
+        return
+    first = c.name.endswith("split_first")
+    ln, l = len_lin(c, arr, loc)
+    nonempty = ln.lo >= 1 or (l is not None and c.st.entails_le(LinForm.constant(1) - l))
+    if not nonempty:
+        s0 = c.fork()
+        try:
+            if l is not None and not l.is_const():
+                s0.add_eq(l)
+            c.ret(opt_none(), st=s0)
+        except Infeasible:
+            pass
+    if ln.hi >= 1:
+        s1 = c.st
+        try:
+            if l is not None and not l.is_const():
+                s1.add_le(LinForm.constant(1) - l)
+            elem = arr.elem if not arr.elem.is_bot() else Top()
+            cells = arr.cells or {}
+            if first:
+                head = cells.get(0, elem)
+                if 0 not in cells and cells:
+                    pass
+                rest_cells = {k - 1: v for k, v in cells.items() if k >= 1}
+            else:
+                n = ln.lo if ln.is_const() else None
+                if n is not None and (n - 1) in cells:
+                    head = cells[n - 1]
+                else:
+                    head = elem
+                    for x in cells.values():
+                        head = join_val(head, x)
+                rest_cells = {k: v for k, v in cells.items() if n is None or k < n - 1}
+            hcell = new_tmp(c, s1, head, "splithead")
+            rest = Arr(usize(max(ln.lo - 1, 0), max(ln.hi - 1, 0)), elem, rest_cells or None, "slice")
+            rcell = new_tmp(c, s1, rest, "splitrest")
+            if l is not None and not l.is_const():
+                try:
+                    s1.cons.add_eq(LinForm.var((rcell, ("len",))) - l + 1)
+                except Exception:
+                    pass
+            c.ret(opt_some(Struct("tuple", [Ref(hcell, ()), Ref(rcell, ())])), st=s1)
+        except Infeasible:
+            pass
